@@ -19,20 +19,21 @@ PLAN = dict(
          "(VIOL class=exponential-growth:<stage>) and s(16)-s(8) <= 6*(s(8)-s(4)) (class=superquadratic-growth:<stage>); tags <stage>:deg<d>, "
          "<stage>:ddeg<d> = fitted exponents in tenths (of the values / of the differences).  Per program (families k <= 8, resp. 16 in the second step; "
          "all random programs): modelrun recomputes G from the stage outputs (must equal the harness's numbers), reads them with the Coq readers, "
-         "computes the Coq sizes (size_fcprog, size_cprog, fs_wprog, ax_size_prog; size <= G <= 64*size), and evaluates on the REAL outputs the proved "
-         "linearization bound (class=proved-bound:linearize), the proved shape of the code-generation bound with calibrated K = 16 "
-         "(class=codegen-bound:<arch>) and the stated bounds of the unproved passes with calibrated constants (class=size-ratio:<pass>: "
-         "core <= 12*source*(1+vars), focused <= 6*core, shrunk <= 8*(1+xtors)*focused*(1+width)).  Non-trivial: every readable case; "
+         "computes the Coq sizes (size_fcprog, size_cprog, c_wprog, fs_wprog, ax_size_prog; size <= G <= 64*(size + declarations)), and evaluates on the REAL "
+         "outputs the proved bounds of focus, shrink and linearize (class=proved-bound:<pass>), the proved shape of the code-generation bound with "
+         "calibrated K = 16 (class=codegen-bound:<arch>) and the stated bounds with calibrated constants (class=size-ratio:<pass>: "
+         "core <= 12*source*(1+vars), shrunk <= 8*(1+xtors)*focused*(1+width)).  Non-trivial: every readable case; "
          "distinct = distinct (family, sequence) resp. programs",
-    explanation="theorems (Props/C19.v): fun2core lifts the non-leaf continuation of `if` and of multi-clause `case` once and hands every branch the same "
-                "call of size 2 + |free variables| (re-export of the C02 lemmas); linearize: size <= 2*size + 3*statements*(1+width) for every program "
-                "(one Substitute per statement, bounded by the context, contexts grow only by binders); generic code generator: instructions <= "
-                "K * size * (5 + 2*max context length) under an abstract cost model of the back-end operations; shrink: see the theorem list "
-                "(partial results are named _partial).  fun2core_size / focus_size / shrink_size as whole-pass bounds are STATED, not proved; "
-                "they are evaluated with calibrated constants on every case",
+    explanation="theorems (Props/C19.v, all closed under the global context): fun2core lifts the non-leaf continuation of `if` and of multi-clause "
+                "`case` once and hands every branch the same call of size 2 + |free variables| (re-export of the C02 lemmas); focus: a focused statement "
+                "is at most 4x as heavy as its source (program level up to the renaming pass uniquify: _partial); shrink: statement + everything lifted "
+                "<= w*((2+X*(2+A)) + 2*(1+X)*w) for every program (w weighted size, X/A largest number of xtors / arity), and the sharing step of a "
+                "critical pair in isolation; linearize: size <= 2*size + 3*statements*(1+width) for every program; generic code generator: "
+                "instructions <= K*size*(5+2*max context length) under an abstract cost model of the back-end operations.  fun2core_size (whole pass) "
+                "and the sharp linear forms are STATED, not proved; they are evaluated with calibrated constants on every case",
     assumptions=[
         "the size measures: node counts including the length of every variable list (Lang/AxSize.v, Lang/FsSize.v), plain node counts for Fun and Core (arguments are terms there)",
-        "the generic measure G is within [1, 64] x the Coq measure on every case (checked on every case, not proved)",
+        "the generic measure G is within [1, 64] x (the Coq measure + the weight of the type declarations) on every case (checked on every case, not proved; for random programs the upper bound is not required of the checked Fun program, whose type annotations are unbounded)",
         "cost model of the back-end operations (single operation <= K instructions, store/load <= K*(1+fields), parallel moves of a Substitute <= K*(1+old+new context length)) is a hypothesis of the code-generation theorem; K = 16 is calibrated on the observed outputs, not proved for the three back ends",
         "growth thresholds: factor 6 per doubling of k separates degree <= 2 (factor <= 4 + lower-order terms) from degree >= 3 (factor 8) and from 2^k (factor 256)",
         "RISC-V: print is not implemented and at most 14 live variables fit; those outputs are `panic` and skipped",
